@@ -370,9 +370,68 @@ def transport_check(tier, res):
     finally:
         loop.teardown()
     multi_connection_check(tier, res, sig)
+    read_boundary_check(tier, res, sig)
     res["violations"] = list(sig.values())
     res["counters"]["transport_feeds"] = res["states"]
     return res
+
+
+def read_boundary_check(tier, res, sig):
+    """streams whose messages end exactly on (or one byte around) a boundary of the handlers' 1024-byte reads, followed
+    by silence: every message must have been handed on when the last byte has been read, not when more data arrives"""
+    from indi.routing import Device, Router
+    from indi.transport.client.tcp import ConnectionHandler as ClientH
+    from indi.transport.server.tcp import ConnectionHandler as ServerH
+
+    from mc.core import vloop as V
+
+    def stream(total):
+        head = b'<getProperties version="1.7" device="D"/>'
+        tail = b'<getProperties version="1.7"/>'
+        frame = b'<newTextVector device="D" name="N"><oneText name="a">%s</oneText></newTextVector>'
+        fill = total - len(head) - len(tail) - (len(frame) - 2)
+        return head + frame % (b"x" * fill) + tail
+
+    for side in ("client", "server"):
+        for k in (1, 2, 3):
+            for delta in (-1, 0, 1):
+                data = stream(1024 * k + delta)
+                for feed in ("whole", "1024"):
+                    pieces = [data] if feed == "whole" else [data[j : j + 1024] for j in range(0, len(data), 1024)]
+                    loop = V.VLoop().install()
+                    try:
+                        got = []
+                        ep = V.Endpoint(loop, "x")
+                        if side == "client":
+                            h = ClientH(ep.reader, ep.writer, got.append)
+                        else:
+                            router = Router()
+
+                            class Rec(Device):
+                                def accepts(self, device):
+                                    return True
+
+                                def message_from_client(self, message):
+                                    got.append(message)
+
+                            router.register_device(Rec())
+                            h = ServerH(ep.reader, ep.writer, router)
+                        task = loop.create_task(h.wait_for_messages())
+                        loop.quiesce()
+                        for p in pieces:
+                            ep.feed(p)
+                            loop.quiesce()
+                        res["transitions"] += len(pieces)
+                        res["states"] += 1
+                        kinds = [type(m).__name__ for m in got]
+                        if kinds != ["GetProperties", "NewTextVector", "GetProperties"] or task.done():
+                            key = ("late-delivery", "transport=%s,stream-ends-at-read-boundary%+d" % (side, delta))
+                            if key in sig:
+                                sig[key]["count"] += 1
+                            else:
+                                sig[key] = {"clause": key[0], "disc": key[1], "what": "%s handler, %d bytes fed %s, then silence: delivered %r, loop ended=%s" % (side, len(data), feed, kinds, task.done()), "count": 1, "replay": {"transport": side + "-boundary"}}
+                    finally:
+                        loop.teardown()
 
 
 def multi_connection_check(tier, res, sig):
